@@ -87,7 +87,7 @@ class Sim:
             a = (("bind_simple", r.choice(["cn=" + mk, "cn=" + mk, "", None]), r.choice(["pw", "pw", mk, "", None]), H._ctl(r, 0.25)) if r.random() < 0.5 else
                  ("bind_sasl", r.choice(["GSSAPI", "EXTERNAL", "", "gssapi", "Digest-md5", "x-\u00df\ufb01"]), "cn=" + mk, r.choice([mk.encode(), mk.encode(), b"", None]), H._ctl(r, 0.25)))
         elif k == "search":
-            a = ("search", "dc=" + mk, r.choice([0, 1, 2]), r.choice([0, 1, 2, 3]), r.choice([0, 10, 2**30 + 1, 2**31 - 1]), r.choice([0, 30, 2**30, 2**31 - 1]), r.random() < 0.3,
+            a = ("search", "dc=" + mk, r.choice([0, 1, 2]), r.choice([0, 1, 2, 3]), r.choice([0, 10, 2**30 + 1, 2**31 - 1, -1]), r.choice([0, 30, 2**30, 2**31 - 1, -5]), r.random() < 0.3,
                  gv.g_filter(r, gv.SMALL) if r.random() < 0.4 else None, r.choice([("cn",), ("cn",), (), None, ("1.1",), ("*", "+", "cn;lang-en")]), H._ctl(r, 0.25))
         else:
             # plain names, names the library's ExtendedOperations enum knows (the driver passes the member itself on odd
@@ -124,7 +124,7 @@ class Sim:
         elif kind == "search":
             x = r.random()
             if x < 0.5:
-                a = ("entry", mid, "cn=" + mk, r.choice([(("cn", (mk.encode(),)),), (("cn", ()), ("sn", (b"", mk.encode()))), ()]), H._ctl(r, 0.25))
+                a = ("entry", mid, "cn=" + mk, r.choice([(("cn", (mk.encode(),)),), (("cn", ()), ("sn", (b"", mk.encode()))), (), (("member", (b"a",)), ("Member", (b"b", mk.encode())), ("member", (b"c",))), (("cn", (b"x", b"x")), ("cn", (b"x",)))]), H._ctl(r, 0.25))
             elif x < 0.65:
                 a = ("reference", mid, ("ldap://" + mk,), H._ctl(r, 0.25))
             else:
